@@ -2,6 +2,7 @@
 // Included inside `verus! { }`. The data types (`Id`, `Command`, `Out`) and the `Out` / `is_no_op`
 // functions are copied mechanically from /repo by the directives below and verified against the
 // contracts given here; only the items marked TRUSTED are assumptions.
+// The including unit needs `use vstd::std_specs::iter::IteratorSpec;` (contract of `Out::into_iter`).
 
 /*@item src/actor.rs :: struct Id
 prefix: #[derive(Clone, Copy, PartialEq, Eq, Hash)]
@@ -118,13 +119,14 @@ spec fn clone_eq<T: Clone>() -> bool {
 // TRUSTED: `impl Deref for Cow` (std::borrow::Cow): "match *self { Borrowed(borrowed) => borrowed,
 // Owned(ref owned) => owned.borrow() }". The std impl is for `B: ?Sized + ToOwned`, for which the
 // owned form cannot be named in a Verus spec; the target is therefore an uninterpreted function, and
-// the axiom below fixes it for the `T: Clone` instances (blanket `impl<T: Clone> ToOwned for T`, whose
+// the axiom (external_body broadcast lemma) below fixes it for the `T: Clone` instances (blanket `impl<T: Clone> ToOwned for T`, whose
 // `Owned = T` and whose `borrow` is the identity).
 pub uninterp spec fn cow_deref_spec<'a, 'b, B: ?Sized + std::borrow::ToOwned>(c: &'b std::borrow::Cow<'a, B>) -> &'b B;
 pub assume_specification<'a, 'b, B: ?Sized + std::borrow::ToOwned>[<std::borrow::Cow<'a, B> as core::ops::Deref>::deref](c: &'b std::borrow::Cow<'a, B>) -> (r: &'b B)
     ensures r == cow_deref_spec(c);
-pub broadcast axiom fn axiom_cow_deref_clone<'a, T: Clone>(c: &std::borrow::Cow<'a, T>)
-    ensures #[trigger] *cow_deref_spec(c) == cv(*c);
+#[verifier::external_body] pub broadcast proof fn axiom_cow_deref_clone<'a, T: Clone>(c: &std::borrow::Cow<'a, T>)
+    ensures #[trigger] *cow_deref_spec(c) == cv(*c)
+{}
 
 // TRUSTED: `Cow::to_mut` (std::borrow::Cow): "Acquires a mutable reference to the owned form of the
 // data. Clones the data if it is not already owned." After the borrow ends the `Cow` is `Owned(v)`
@@ -135,8 +137,9 @@ pub assume_specification<'a, 'b, B: ?Sized + std::borrow::ToOwned>[std::borrow::
     ensures
         *r == cow_owned_spec(*old(c)),
         *final(c) == std::borrow::Cow::<B>::Owned(*final(r));
-pub broadcast axiom fn axiom_cow_owned_clone<'a, T: Clone>(c: std::borrow::Cow<'a, T>)
-    ensures #[trigger] cow_owned_spec(c) == cv(c);
+#[verifier::external_body] pub broadcast proof fn axiom_cow_owned_clone<'a, T: Clone>(c: std::borrow::Cow<'a, T>)
+    ensures #[trigger] cow_owned_spec(c) == cv(c)
+{}
 
 // a function that dereferences or `to_mut`s a `Cow` starts with `broadcast use group_cow;`
 pub broadcast group group_cow { axiom_cow_deref_clone, axiom_cow_owned_clone }
